@@ -776,6 +776,106 @@ def check_heads_ctor_fill(ctx, F):
     ctx.ok('R6', role, b.defpath, 'counted reading loop(s) stay below the upper bound of the head in every admitted configuration', key=key)
 
 
+def check_heads_ctor_initial_nonzero(ctx, F):
+    """The remainders head enters the fill loop of the head constructor with a set bit: the marker bit (raw binary data) or
+    the top word of the imported data, decided `!= 0` on the word itself.  A head that starts from zero absorbs the zero
+    words the data ends in: `from_compressed` then accepts data that the exporter can never produce, and the way back
+    loses those words."""
+    import props.C04 as c04
+    AGG_HEADS = 'stream::chain::ChainCoderHeads'
+    key = 'R6/heads-ctor-initial-nonzero/' + AGG_HEADS
+    role = 'the head enters the fill loop non-zero (marker bit or a top word decided != 0)'
+    bs = [b for b in F.bodies if b.promoted is None and b.name == 'new' and b.self_adt == AGG_HEADS and b.dk == 'AssocFn']
+    if not bs:
+        return ctx.unresolved('R6', role, AGG_HEADS, 'constructor not found', key=key)
+    b = bs[0]
+    ev, paths = rules.evaluate(b)
+    n_marker = n_word = 0
+    for r in paths or []:
+        if not (r.end == 'backedge' or (r.end == 'return' and r.ret is not None and rules.ret_shape(r.ret)[0] == 'Ok')):
+            continue
+        les = [e for e in r.events if e['kind'] == 'loop_enter']
+        if not les:
+            continue
+        le = les[0]
+        heads = set()
+        for t, v, _ in r.preds:
+            c = pow2.below_pow2(t, v, lambda x: pow2.bits_of('State'))
+            if c is not None and isinstance(c[0], tuple) and c[0] and c[0][0] == 'loop' and c[0][1] == le['head']:
+                heads.add(tuple(c[0][2]) if isinstance(c[0][2], (list, tuple)) else c[0][2])
+        if len(heads) != 1:
+            return ctx.unresolved('R6', role, b.defpath, 'the loop variable under the threshold test is not identified', key=key)
+        init = le['pre'].get(next(iter(heads)))
+        if init is None:
+            return ctx.unresolved('R6', role, b.defpath, 'initial value of the head not recorded', key=key)
+        init = effects_strip(init)
+        if init == ('call', 'num_traits::One::one', ()) or (init[0] == 'k' and init[1] == 'one'):
+            n_marker += 1
+            continue
+        if init[0] == 'k' and init[1] == 'zero' or (init[0] == 'call' and init[1].endswith('Zero::zero')) or init == ('int', 0):
+            return ctx.bad('R6', role, b.defpath, 'on one path the head enters the fill loop as zero: leading zero words of the data are absorbed, data ending in a zero word is accepted and re-exporting drops those words', key=key, loc=rules.loc(b))
+        w, got, nonzero = c04.top_word_decision(r)
+        if w is not None and sym.contains(init, lambda x, w0=effects_strip(w): x == w0) and not sym.contains(init, lambda x: isinstance(x, tuple) and x and x[0] == 'bin'):
+            if not nonzero:
+                return ctx.bad('R6', role, b.defpath, 'the head starts from the first word of the data without the decision that the word is non-zero', key=key, loc=rules.loc(b))
+            n_word += 1
+            continue
+        return ctx.unresolved('R6', role, b.defpath, 'initial head `%s` is neither the marker bit nor the first word read' % sym.show(init)[:60], key=key)
+    if n_marker + n_word == 0:
+        return ctx.unresolved('R6', role, b.defpath, 'no path enters a fill loop', key=key)
+    ctx.ok('R6', role, b.defpath, '%d path(s) start from the marker bit, %d from a top word decided != 0' % (n_marker, n_word), key=key)
+
+
+def effects_strip(t):
+    from vlib import effects
+    return effects.strip_uid(t)
+
+
+def check_remainders_import_refusals(ctx, F):
+    """`from_remainders` refuses (Frontend error) only what `into_remainders` cannot have produced: a word that is absent, or
+    a head word that is zero.  A refusing path on which every word asked for was there and non-zero turns down remainders
+    that came right out of the exporter (the heads are carried over unchanged by the precision changers, so no value of
+    PRECISION narrows what they may hold)."""
+    key = 'R6/remainders-import-refusals/' + CHAIN
+    role = 'from_remainders refuses only absent or zero words'
+    bs = [b for b in F.bodies if b.promoted is None and b.name == 'from_remainders' and b.self_adt == CHAIN and b.dk == 'AssocFn']
+    if not bs:
+        return ctx.unresolved('R6', role, CHAIN, 'from_remainders not found', key=key)
+    b = bs[0]
+    ctx.touch(b)
+    ev, paths = rules.evaluate(b)
+    if not paths:
+        return ctx.unresolved('R6', role, b.defpath, 'not evaluated', key=key)
+    is_read = lambda x: isinstance(x, tuple) and x and x[0] == 'call' and str(x[1]).endswith('ReadWords::read')
+    n = 0
+    for r in paths:
+        if r.end != 'return' or r.ret is None:
+            continue
+        sh = rules.ret_shape(r.ret)
+        if sh[0] != 'Err' or not sym.contains(r.ret, lambda x: isinstance(x, tuple) and x and x[0] == 'agg' and isinstance(x[1], tuple) and x[1][0] == 'adt' and x[1][2] == 'Frontend'):
+            continue
+        n += 1
+        excuse = False
+        for t, v, _ in r.preds:
+            if t[0] == 'discr' and sym.contains(t[1], is_read):
+                dv = sym.discr_variant(t, v)
+                if dv in ('None', 'Break', 'Err'):
+                    excuse = True
+            if t[0] == 'bin' and t[1] in ('Eq', 'Ne'):
+                for a, c in ((t[2], t[3]), (t[3], t[2])):
+                    if a[0] == 'k' and a[1] == 'zero' and sym.contains(c, is_read) and not sym.contains(c, lambda x: isinstance(x, tuple) and x and x[0] == 'bin'):
+                        if (t[1] == 'Eq' and v) or (t[1] == 'Ne' and not v):
+                            excuse = True
+            if t[0] == 'call' and str(t[1]).endswith('is_zero') and v and sym.contains(t, is_read):
+                excuse = True
+        if not excuse:
+            extra = [sym.show(t)[:70] for t, v, _ in r.preds if not sym.contains(t, is_read) or (t[0] == 'bin' and not any(x[0] == 'k' for x in (t[2], t[3])))]
+            return ctx.bad('R6', role, b.defpath, 'a refusing path on which every word asked for is present and non-zero (decided on %s): remainders that came out of into_remainders are turned down' % (extra[:2] or 'other grounds'), key=key, loc=rules.loc(b))
+    if not n:
+        return ctx.unresolved('R6', role, b.defpath, 'no refusing path found', key=key)
+    ctx.ok('R6', role, b.defpath, '%d refusing path(s), each with an absent or zero word' % n, key=key)
+
+
 def check_no_stale_heads(ctx, F):
     """A function that consumes a chain coder and hands back a coder (the precision changers, the conversions) builds the
     result from the coder *as it is at that point*: when a `&mut self` helper ran on the way (a refill or a flush of the
@@ -824,6 +924,8 @@ def run(ctx):
     c08.check_clone_complete(ctx, F, CHAIN)      # a snapshot (clone / clone_from) carries the heads as well as the two backends
     check_no_stale_heads(ctx, F)
     check_heads_ctor_fill(ctx, F)
+    check_heads_ctor_initial_nonzero(ctx, F)
+    check_remainders_import_refusals(ctx, F)
     check_refused_export_untouched(ctx, F)
     check_precision_changers(ctx, F)
     check_heads_closed(ctx, F)
